@@ -2,6 +2,7 @@ package props
 
 import (
 	"fmt"
+	"strings"
 
 	"verif/internal/an"
 )
@@ -49,6 +50,38 @@ func runC02(c *Ctx) {
 		default:
 			r.Bad("C02-L1", fmt.Sprintf("%s: store raftLog.committed = %s has none of the accepted writer shapes", u.Name, val), u.Pos(s.Pos), "")
 		}
+	}
+
+	// L7: replication progress used for commit counting only moves through acknowledged appends
+	r.Clause("C02-L7", "Progress.Match is raised only by an acknowledged index (maybeUpdate) or set at (re)initialisation")
+	mw := c.W.AllSites(an.Store("raft.Progress.Match"), "Match", nil)
+	r.Min("C02-L7", len(mw), 2, "stores to Progress.Match")
+	for _, sw := range mw {
+		u, s := sw.U, sw.S
+		val := ""
+		if s.RHS != nil {
+			val = u.C.Term(s.RHS)
+		}
+		switch {
+		case u.Name == "raft.(*Progress).maybeUpdate" && val == "p0":
+			r.GuardSite("C02-L7", u, s, c.W.Parse("recv.Match < p0"), "only forward")
+		case strings.HasPrefix(u.Name, "raft.(*raft).reset$lit") && val == "recv.raftLog.lastIndex()":
+			r.GuardSite("C02-L7", u, s, c.W.Parse("lp0 == recv.id"), "own progress of a new term")
+		default:
+			r.Bad("C02-L7", fmt.Sprintf("%s: store Progress.Match = %s has none of the accepted writer shapes", u.Name, val), u.Pos(s.Pos),
+				"accepted: maybeUpdate(n) under Match < n; own entry in reset; Progress literals in setProgress")
+		}
+	}
+	// L8: a slice of the log handed out is contiguous
+	r.Clause("C02-L8", "a size-truncated stable prefix is never joined with unstable entries")
+	if u := c.unit("C02-L8", "raft.(*raftLog).slice"); u != nil {
+		join := an.Call("raft.(*unstable).slice")
+		r.Guard("C02-L8", u, join, "!(p0 < recv.unstable.offset) || !(uint64(len(storedEnts)) < raft.min(p1, recv.unstable.offset) - p0)", an.GuardOpts{Min: 1})
+		r.ArgValues("C02-L8", u, join, 0, []string{"raft.max(p0, recv.unstable.offset)"}, 1)
+		r.ArgValues("C02-L8", u, join, 1, []string{"p1"}, 1)
+		st := an.Call("raft.Storage.Entries")
+		r.ArgValues("C02-L8", u, st, 0, []string{"p0"}, 1)
+		r.ArgValues("C02-L8", u, st, 1, []string{"raft.min(p1, recv.unstable.offset)"}, 1)
 	}
 
 	// L2
